@@ -41,7 +41,12 @@ tIv4 == <<49, 58, 50, 58, 51, 58, 52>>
 tNbsp == <<160, 120, 121, 8195>>                \* NO-BREAK SPACE x y EM SPACE
 tIdeo == <<12288, 122, 133, 32>>                \* IDEOGRAPHIC SPACE z NEL SPACE
 tRare == <<304, 223, 8490, 64257>>              \* I WITH DOT ABOVE, sharp s, KELVIN SIGN, fi ligature (letters whose case forms have other lengths)
-Texts == {tNbsp, tIdeo, tRare, tIvHuge, tIvMax1, tIvSecs, tIvNeg, tIv4, <<>>, t12, tNeg3, tPlus5, tPad7, t15, tAbc, tTrue, tTs, tTsBad, tIv, tSpX, tSpE, tE, tCjk, MaxText, MaxPlus1Text, MinText, LongDigits, U32WrapText}
+\* REAL spellings of f64::from_str beyond plain decimals: exponents in either case with and without sign, a bare leading / trailing dot, inf / infinity / nan
+\* in any case with a sign (a NaN written with '-' has its sign bit set), and near-misses that are no REAL at all
+RealTexts == {<<49, 101, 53>>, <<50, 69, 50>>, <<50, 53, 101, 45, 49>>, <<49, 101, 43, 50>>, <<46, 53>>, <<53, 46>>, <<43, 46, 53>>, <<45, 48, 46, 48>>, <<45, 48, 101, 48>>,
+              <<105, 110, 102>>, <<45, 73, 110, 102, 105, 110, 105, 116, 121>>, <<43, 105, 110, 102>>, <<78, 97, 78>>, <<45, 110, 97, 110>>,
+              <<49, 101>>, <<101, 53>>, <<46>>, <<49, 101, 43>>, <<105, 110, 102, 105>>, <<49, 46, 50, 46, 51>>, <<49, 101, 50, 46, 53>>, <<49, 32>>, <<48, 120, 49, 48>>}
+Texts == {tNbsp, tIdeo, tRare, tIvHuge, tIvMax1, tIvSecs, tIvNeg, tIv4, <<>>, t12, tNeg3, tPlus5, tPad7, t15, tAbc, tTrue, tTs, tTsBad, tIv, tSpX, tSpE, tE, tCjk, MaxText, MaxPlus1Text, MinText, LongDigits, U32WrapText} \cup RealTexts
 GStates == {NoGroup} \cup {G(x) : x \in Texts}
 
 Groups7(g1, g2, g3) == Match(<<g1, g2, g3, NoGroup, NoGroup, NoGroup, NoGroup>>)
